@@ -226,13 +226,14 @@ func TestC08(t *testing.T) {
 	// oversize family: kind x size x placement
 	sizes := []int{65536, 65600, 131073}
 	placements := []string{"first", "after-valid", "between-valid", "twice"}
-	nOver := e.Pick(numOversizeKinds, numOversizeKinds*len(sizes)*len(placements))
+	nOver := e.Pick(2*numOversizeKinds, numOversizeKinds*len(sizes)*len(placements))
 	r.Layer("oversize", nOver, func(c *vc.Case) {
 		kind := c.Idx % numOversizeKinds
 		size := sizes[(c.Idx/numOversizeKinds)%len(sizes)]
 		place := placements[(c.Idx/(numOversizeKinds*len(sizes)))%len(placements)]
 		if !e.Thorough() {
-			size = sizes[c.Idx%len(sizes)]
+			// quick: every kind just above the limit (65,600) and far above it (131,073)
+			size = []int{65600, 131073}[(c.Idx/numOversizeKinds)%2]
 			place = placements[1+c.Idx%3]
 		}
 		big, name := oversize(kind, size)
